@@ -153,6 +153,8 @@ def gen_cases(ctx):
         except Exception:
             pass
     cases += exhaustive_small(ctx.quick())
+    cases += exhaustive_extreme(rng, ctx.quick())
+    cases += lonely_and_unfiltered(rng, ctx.quick())
     n_cases = 600 if ctx.quick() else 12000
     for i in range(n_cases):
         klass = rng.choice(LOGIT_CLASSES)
@@ -198,11 +200,75 @@ def exhaustive_small(quick):
     return out
 
 
+EXTREME = [NINF, 0xFF7FFFFF, 0xFEFFFFFF, 1, 0, 1 << 31, MAXF, PINF]   # -Inf, -MaxFloat32, -MaxFloat32/2, min subnormal, +0, -0, MaxFloat32, +Inf
+EDGE_DRAWS = [0, 1, (1 << 24) - 1, 1 << 23]                            # r = 0, 2^-24, 1-2^-24, 1/2
+
+
+def nofilter(logits, klass, draws=None, k=0, p=1.0, mp=0.0, t=1.0):
+    return {"op": "sample", "logits": logits, "temp": f2b(t), "topk": k, "topp": f2b(p), "minp": f2b(mp), "draws": draws or EDGE_DRAWS, "klass": klass}
+
+
+def greedy_case(logits, klass, t=0.0):
+    return {"op": "sample", "logits": logits, "temp": f2b(t), "topk": 0, "topp": f2b(1.0), "minp": f2b(0.0), "draws": [0], "klass": klass}
+
+
+def exhaustive_extreme(rng, quick):
+    """every vector of length 1..4 (all orders) over {-Inf, -MaxFloat32, -MaxFloat32/2, smallest subnormal, +-0, MaxFloat32,
+    +Inf}, on the greedy path and on the weighted path with every filter off (draws exactly 0, 2^-24, 1-2^-24, 1/2), and -
+    lengths <= 3 - with filters on.  All of them run on the implementation and are monitored; in the quick tier the model
+    comparison takes every vector of length <= 3 and a random eighth of length 4 (thorough: all)."""
+    import itertools
+    out = []
+    for L in range(1, 5):
+        for v in itertools.product(EXTREME, repeat=L):
+            v = list(v)
+            skip = quick and L == 4 and rng.random() > 0.125
+            for c in (greedy_case(v, "extreme-greedy"), nofilter(v, "extreme-nofilter")):
+                if skip:
+                    c["nocoq"] = True
+                out.append(c)
+            if L <= 3:
+                out.append({"op": "sample", "logits": v, "temp": f2b(0.5), "topk": 2, "topp": f2b(0.5), "minp": f2b(0.5), "draws": EDGE_DRAWS, "klass": "extreme-filtered"})
+    return out
+
+
+def lonely_and_unfiltered(rng, quick):
+    """(a) long vectors that are -Inf everywhere except one finite entry at a random (often first / last) index, greedy and
+    weighted; (b) ordinary vectors with -Inf planted at the first and / or last position, every filter off in all the ways
+    NewSampler accepts (top_k <= 0, top_p >= 1, min_p <= 0), draws exactly 0 / 2^-24 / 1-2^-24 / 1-2^-23"""
+    out = []
+    finite = [0xFF7FFFFF, 0xFEFFFFFF, 1, 0, 1 << 31, MAXF, f2b(-1e30), f2b(-5.0), f2b(0.5), f2b(3.0), (1 << 31) | 1, 0x00800000]
+    for _ in range(40 if quick else 600):
+        n = rng.choice([2, 3, 5, 13, 40, rng.randint(2, 200)])
+        i = rng.choice([0, n - 1, rng.randrange(n)])
+        v = [NINF] * n
+        v[i] = rng.choice(finite) if rng.random() < 0.8 else f2b(rng.gauss(0, 1e3))
+        out.append(greedy_case(v, "lonely-greedy", t=rng.choice([0.0, -0.0, -2.0])))
+        out.append(nofilter(v, "lonely-nofilter", t=rng.choice([1.0, 0.3, 1e-9, 50.0])))
+        t, k, p, mp = gen_params(rng, n)
+        out.append({"op": "sample", "logits": v, "temp": t, "topk": k, "topp": p, "minp": mp, "draws": EDGE_DRAWS, "klass": "lonely-filtered"})
+    for _ in range(60 if quick else 900):
+        n = rng.randint(2, 30)
+        v = gen_logits(rng, rng.choice(["normal", "ties", "mask", "steep", "huge", "tiny", "bits"]), n)
+        where = rng.randrange(3)
+        if where in (0, 2):
+            v[0] = NINF
+        if where in (1, 2):
+            v[-1] = NINF
+        out.append(nofilter(v, "unfiltered-ninf-ends", draws=[0, 1, (1 << 24) - 1, (1 << 24) - 2], k=rng.choice([0, 0, -1, -40]),
+                            p=rng.choice([1.0, 1.0, 1.5, 7.0]), mp=rng.choice([0.0, 0.0, -1.0, -0.0]), t=rng.choice([1.0, 0.7, 1e-9, 30.0])))
+    return out
+
+
 def boundary_cases(cases, obs, rng, limit):
     """second pass: the same cases with draws next to the cumulative-probability boundaries of the implementation's own
     filtered distribution (where an off-by-one in the search or in a filter changes the returned token)"""
     out = []
-    for c, o in zip(cases, obs):
+    order = list(range(len(cases)))
+    rng.shuffle(order)
+    order.sort(key=lambda i: cases[i]["klass"].startswith(("extreme", "exhaustive")))   # random classes first
+    for i in order:
+        c, o = cases[i], obs[i]
         if len(out) >= limit:
             break
         st = o.get("stages") if isinstance(o, dict) else None
@@ -500,6 +566,12 @@ def search_around(ctx, binp, c):
     for _ in range(20):
         sub = [b for b in logits if rng.random() < 0.6] or logits[:1]
         muts.append(dict(c, logits=sub, draws=draws, klass="search"))
+    # every filter off / greedy, with -Inf or an extreme finite value planted at the ends, draws exactly 0 and 1-2^-24
+    for v in (logits, [NINF] + logits, logits + [NINF], [NINF] + logits + [NINF], [NINF, 0xFF7FFFFF], [0xFF7FFFFF, NINF], [NINF] * 3 + logits[:1]):
+        for t in (c["temp"], f2b(1.0), f2b(1e-9)):
+            muts.append(nofilter(v, "search", draws=[0, 1, (1 << 24) - 1, (1 << 24) - 2], t=b2f(t) if b2f(t) > 0 else 1.0))
+        muts.append(greedy_case(v, "search"))
+        muts.append(greedy_case([0xFF7FFFFF if b != NINF else b for b in v], "search"))
     obs, _ = ctx.run_jsonl(binp, muts)
     if not obs or len(obs) != len(muts):
         return None
@@ -525,7 +597,7 @@ def evaluate(ctx, binp, cases, tag):
         if c["op"] == "sample":
             found = monitor_sample(ctx, c, o)
             names, term = render_sample(c, o)
-            its = [(names, "all_true (%s)" % term, term)]
+            its = [(names, "all_true (%s)" % term, term)] if not c.get("nocoq") else []
             ok_tok = any(e == "" for e in o.get("errs", []))
             st = o.get("stages")
             if isinstance(st, dict) and "exp" in st:
@@ -538,7 +610,7 @@ def evaluate(ctx, binp, cases, tag):
             its = [([n_], t_, None) for n_, t_ in render_seed(c, o)]
             tables += o.get("exp") or []
             nontriv = bool(o.get("seeded")) and any(e == "" for e in o.get("ea", []))
-        ctx.note_case({k: v for k, v in c.items() if k != "klass"}, nontriv, c["klass"], sample={"case": c, "impl": o} if ci % 50 == 7 else None)
+        ctx.note_case({k: v for k, v in c.items() if k not in ("klass", "nocoq")}, nontriv, c["klass"], sample={"case": c, "impl": o} if ci % 50 == 7 else None)
         for sig, what in found:
             key = json.dumps(sig, sort_keys=True)
             if key not in shrunk and len(shrunk) < 6 and c["op"] == "sample":
@@ -630,7 +702,9 @@ def run(ctx):
     ctx.rule = ("cases: logit vectors of length 1..200 (thorough: ..600) of the classes normal / ties (incl. +-0) / -Inf mask / all -Inf / +Inf / huge magnitudes "
                 "/ subnormals / neighbouring floats / concentrated mass / NaN / arbitrary bit patterns, crossed with temperature (0, -0, negative, below 1e-7, "
                 "..., 3e38), top-k (<=0, 1, n-1, n, n+1, ...), top-p and min-p (0, 1, out of range, ...), 2-4 scripted draws each (0, 1-2^-24, random) plus a "
-                "second pass with draws next to the cumulative-sum boundaries; seeded streams of 2-8 vectors.  non-trivial = temperature > 0, more than one "
+                "second pass with draws next to the cumulative-sum boundaries; exhaustively every vector of length 1..4 over {-Inf, -MaxFloat32, -MaxFloat32/2, min subnormal, "
+                "+-0, MaxFloat32, +Inf} on the greedy path and with every filter off (draws exactly 0, 2^-24, 1-2^-24, 1/2); -Inf vectors with one finite entry; "
+                "-Inf planted first/last with all filters off; seeded streams of 2-8 vectors.  non-trivial = temperature > 0, more than one "
                 "token survives top-k and a token is returned (seed: seeded and a token returned); distinct = by canonical JSON of the case")
     ctx.trusted = ["Coq 8.16.1 kernel + vm_compute", "Coq standard library SpecFloat (binary32 arithmetic of the model) and Flocq 4.1 BinarySingleNaN (its correctness theorems)",
                    "hand-written model coq/Sample/Model.v, tied to sample/samplers.go and sample/transforms.go by this differential run only",
